@@ -185,8 +185,12 @@ def run(ctx):
         code = xb.oname(c.args[0], 3)
         for c2 in xb.calls:
             if c2.local and re.search(r"ToUnicodeCMap::(stored|char_target)$", c2.cname) and any(c2.bb in bl and c.bb in bl for bl in xb.loops().values()):
-                howcode.append("%s(%s, ..)" % (c2.cname.rsplit("::", 1)[-1], xb.oname(c2.args[0], 3)))
-                if xb.oname(c2.args[0], 3) != code:
+                # the code argument(s): the parameters of the callee that are source codes (u32), wherever they stand
+                cb2 = F.bodies.get(c2.name)
+                pos = [i - 1 for i in range(1, cb2.argc + 1) if cb2.lty(i) == "u32"] if cb2 is not None else [0]
+                given = [xb.oname(c2.args[i], 3) for i in pos if i < len(c2.args)]
+                howcode.append("%s(%s)" % (c2.cname.rsplit("::", 1)[-1], ",".join(given)))
+                if not given or any(g_ != code for g_ in given):
                     okcode = False
     ctx.ob(R, "array-element-entered-for-its-own-code", okcode, "interval %s, %s" % ([x_.oname(c.args[0], 3) for c in single for x_ in pscope if c in x_.calls], howcode), pb_.where(),
            what="an element of an array bfrange target is entered with a code other than its own (%s): elements after the first decode to a shifted value" % howcode)
@@ -237,8 +241,17 @@ def run(ctx):
         lenarg = [i for i in range(1, b.argc + 1) if b.lty(i) == "u8"]
         with b.alpha(args=True):
             cs = [b.oname(b.term(bi)["d"], 3) for bi in range(b.n) if b.term(bi)["k"] == "switch"]
-        mm2 = [re.match(r"^Gt\(arg%d,(\d+)\)$" % (lenarg[0] if len(lenarg) == 1 else 0), c) for c in cs]
-        consts["%s bound" % fn] = [x.group(1) for x in mm2 if x][0] if any(mm2) else "?"
+        # the largest admitted length, from whichever comparison states it: `len > 4` (rejected), `len <= 4` / `1..=4` (admitted)
+        a_ = "arg%d" % (lenarg[0] if len(lenarg) == 1 else 0)
+        ub = []
+        for c in cs:
+            for rx, f_ in ((r"^Gt\(%s,(\d+)\)$" % a_, 0), (r"^Le\(%s,(\d+)\)$" % a_, 0), (r"^Lt\(%s,(\d+)\)$" % a_, -1), (r"^Ge\((\d+),%s\)$" % a_, 0),
+                           (r"^Lt\((\d+),%s\)$" % a_, 0), (r"^Ge\(%s,(\d+)\)$" % a_, None), (r"^Le\((\d+),%s\)$" % a_, None)):
+                m_ = re.match(rx, c)
+                if m_ and f_ is not None:
+                    ub.append(int(m_.group(1)) + f_)
+        ub = [u for u in ub if u >= 2]
+        consts["%s bound" % fn] = str(max(ub)) if ub else "?"
     e = F.fn("Encoding::bytes_to_string")
     # the running code length: the local passed as the length argument of ToUnicodeCMap::get
     getc = lib.local_calls(F, e, "ToUnicodeCMap::get")
